@@ -4,3 +4,4 @@ import MimicProps.C11
 import MimicProps.C05
 import MimicProps.C06
 import MimicProps.C17
+import MimicProps.C02
